@@ -5,6 +5,7 @@ bytes from encode()/prettify(enc)/encode_contents() -> bytes.decode(enc) -> re-p
 <meta> declarations, original_encoding.
 """
 import codecs, copy, html, itertools, re, warnings
+import cdcodecs as cd
 from bs4 import BeautifulSoup
 from bs4.builder import HTMLParserTreeBuilder
 from bs4.element import (Tag, NavigableString, Comment, CData, Doctype, Declaration, ProcessingInstruction,
@@ -912,6 +913,11 @@ def doc_case(ctx, d, forms, route, encs, cmds, pend, corpus_tag=None, flavour="h
                 if stateless:
                     cmds.append(mcmd)
                     pend.append(("bytes", case, r))
+                    if ctx.build.model_ok and cd.model_codec(ctx, enc) is not None:
+                        # the same call against the fully concrete model: codec defined in Coq, nothing measured
+                        cmds.append([21006] + mcmd[1:7])
+                        pend.append(("cbytes", case, r))
+                        ctx.count("cd_encode_calls_concrete_codec")
                 else:
                     # text level: model decode + xcr_text with the measured encodable set
                     sub = {"encode": 0, "prettify": 0, "encode_contents": 1}[ep]
@@ -1099,6 +1105,14 @@ def finish_docs(ctx, cmds, pend):
                 m = m[:nb] + list(decl.encode(case["encoding"])[nb:]) + m[nb:]
             if impl != m:
                 ctx.disagree("%s ~ Model.Encode.tag_%s" % (case["entry"], case["entry"]), case, _short(impl), _short(m))
+        elif kind == "cbytes":
+            impl = list(r[1]) if r[0] == "ok" else r[1]
+            m = cd.dec_encode(mv)
+            if decl and isinstance(m, list):
+                m = list(decl.encode(case["encoding"])) + m
+            if impl != m:
+                ctx.disagree("%s ~ Model.Codecs.c_tag_encode (codec defined in Coq)" % case["entry"], dict(case, concrete_codec=True),
+                             _short(impl), _short(m))
         elif kind == "str":
             impl = r[1] if r[0] == "ok" else "EXC:" + r[1]
             m = "".join(map(chr, mv)) if isinstance(mv, list) else mv
@@ -1214,6 +1228,17 @@ def corpus(ctx, cmds, pend):
 
 
 # ----------------------------------------------------------------------------------------- run
+def concrete_codecs(ctx):
+    """Model/Codecs.v against str.encode / bytes.decode (see harness/cdcodecs.py); the document runs above send every
+    encode()/prettify()/encode_contents() call whose target is ascii / iso-8859-1 / windows-1252 / utf-8 (any spelling
+    codecs.lookup and the model agree on) to the concrete model as well."""
+    cd.sweeps(ctx)
+    ctx.extra_cov["concrete_codecs"] = ("ascii, iso-8859-1, windows-1252, utf-8 defined in Coq: str.encode (strict / "
+                                        "xmlcharrefreplace / replace) and bytes.decode compared on all single bytes, all code "
+                                        "points (encodability), random strings; whole-tree encode calls compared with no "
+                                        "measured codec table (counts: cd_*)")
+
+
 def documents(ctx):
     rng = ctx.rng
     cmds, pend = [], []
@@ -1268,7 +1293,7 @@ def documents(ctx):
 
 def run(ctx):
     import time
-    steps = [documents, subst_cases, install_cases, encode_cases, reader_cases]      # documents: the corpus runs first
+    steps = [documents, subst_cases, install_cases, encode_cases, reader_cases, concrete_codecs]      # documents: the corpus runs first
     if not ctx.search_mode:
         steps.insert(0, lower_check)
     for fn in steps:
@@ -1313,6 +1338,8 @@ def replay(ctx, data):
     case = f.get("case") or {}
     if not case and data.get("disagreements"):
         case = data["disagreements"][0].get("case") or {}
+    if cd.replay(case):
+        return 1
     print("what:", f.get("what") or data.get("no_longer_checks"))
     if "doc" in case and case.get("entry") in ("encode", "prettify", "encode_contents"):
         d = _tuplify(case["doc"])
